@@ -80,6 +80,8 @@ pub struct RefQueue {
     /// The device's own used index.
     pub used_idx: u16,
     pub indirect_negotiated: bool,
+    /// Set once a co-simulated device has written used.flags (it then keeps them up to date).
+    pub used_flags_written: bool,
 }
 
 fn rd(paddr: u64, len: usize) -> Result<Vec<u8>, String> {
@@ -105,7 +107,7 @@ pub fn read_desc_at(table: u64, i: usize) -> Result<Desc, String> {
 
 impl RefQueue {
     pub fn new(a: QueueAddrs, indirect_negotiated: bool) -> Self {
-        RefQueue { a, last_avail: 0, used_idx: 0, indirect_negotiated }
+        RefQueue { a, last_avail: 0, used_idx: 0, indirect_negotiated, used_flags_written: false }
     }
     pub fn n(&self) -> usize {
         self.a.size as usize
